@@ -45,10 +45,17 @@ def line(elem, ops):
 
 
 def model_line(l):
-    # '5 1 n' (Clone::clone_from onto a destination of n elements, which then takes the vector's place) is the model's clone step; the destination's
-    # own elements show up in the destructor row of the implementation only (checked by the harness against what std::Vec destroys)
+    # '5 1 n' (Clone::clone_from onto a destination of n elements, which then takes the vector's place) is the model's VCloneFrom step
     hdr, body = l.split("|", 1)
-    return hdr + "| " + " ; ".join(" ".join(o.split()[:1]) if o.split()[:2] == ["5", "1"] else o.strip() for o in body.split(";"))
+    elem = int(hdr.split()[1])
+    norm = {0: lambda x: x & 255, 3: lambda x: 0, 4: lambda x: x & 0xFFFFFF}.get(elem, lambda x: x)
+    def conv(o):
+        t = o.split()
+        if t[:2] == ["5", "1"]:      # the model's VCloneFrom carries the destination's own elements (values 900.., as the element type stores them)
+            n = (int(t[2]) if len(t) > 2 else 0) % 12
+            return " ".join(["5", "1"] + [str(norm(900 + i)) for i in range(n)])
+        return o.strip()
+    return hdr + "| " + " ; ".join(conv(o) for o in body.split(";"))
 
 
 def exhaustive(elem, maxlen):
@@ -89,7 +96,7 @@ def random_script(rng, maxlen, elem):
         elif r < 78:
             ops.append([4, rng.choice([0, 1, 2, 5, 17, 100])])
         elif r < 82:
-            ops.append([5] if rng.chance(1, 2) else [5, 1, rng.range(0, 11)])
+            ops.append([5] if (elem == 6 or rng.chance(1, 2)) else [5, 1, rng.range(0, 11)])      # (element 6: Clone may panic — plain clone only)
         elif r < 90:
             ops.append([6, idx, rng.range(0, vmax)])
         elif r < 93:
@@ -117,7 +124,7 @@ def gen_cases(rng, tier):
         cases += exhaustive(e, n)
     dist["exhaustive_cases"] = len(cases)
     # clone_from onto destinations shorter and longer than the source, after pushes of 0..6 elements
-    for e in ELEMS:
+    for e in ELEMS[:6]:
         for npush in range(0, 7):
             for cf in CLONE_FROM:
                 cases.append(line(e, [[0, 10 + i] for i in range(npush)] + [cf, [8], [0, 77], [8]]))
